@@ -10,7 +10,8 @@ def units():
 
 
 def extra(tier, seed):
-    return [run_gen("C03-structure", ("C03",), c_validity.gen_structure, tier == "thorough")]
+    return [run_gen("C03-structure", ("C03",), c_validity.gen_structure, tier == "thorough"),
+            run_gen("validity-typing", ("C03",), c_validity.gen_validity_typing, tier == "thorough")]
 
 
 def standins(tier, seed):
@@ -23,7 +24,8 @@ META = {
                    "their input or a text that passed the validity check; fix(...) and chain(...) map valid to valid using only the contract of _apply_rewrites; "
                    "format_file writes only a changed text and only if it is valid or the original was already invalid, and reports no change for an unchanged "
                    "text; subn's rule runs through processing.fix; every rule format_code calls is either scheduled (@processing.fix) or in the explicit list of "
-                   "direct-editing rules. Bounded part (NOT proof): the direct-editing rules, the layout stages and format_code itself have no final validity "
+                   "direct-editing rules; validity typing: each of ~120 text-to-text functions returns, on every return path, its text parameter or the result of a guarded "
+                   "primitive / of another function with that property (13 functions build text themselves and are listed as assumptions). Bounded part (NOT proof): the direct-editing rules, the layout stages and format_code itself have no final validity "
                    "guard - they are checked by running every rule / option set / sub / format_file over the corpus.",
     "trusted_base": ["z3 5.1", "pyvc executor (lenient units: data abstracted, control flow exact)", "ast.parse as the definition of validity"],
     "assumptions": ["direct-editing rules (alter_code, remove_nodes, _insert_nodes users) are bounded only", "open()/write modelled as ghost events"],
